@@ -199,9 +199,11 @@ class PyDict:
     def __init__(self, d=None, fresh=True):
         self.d = dict(d or {})
         self.fresh = fresh
+        self.sym = []        # entries [key, value] whose key is symbolic; kept pairwise distinct from all other keys
+                             # on the current path (equality is decided by forking when an entry is stored)
 
     def __repr__(self):
-        return f"PyDict{self.d}"
+        return f"PyDict{self.d}{self.sym if self.sym else ''}"
 
 
 class PySet:
@@ -216,11 +218,12 @@ class SymSeq:
     """immutable sequence of symbolic (or concrete) length n with element function elem(i)
     (i is a z3 Int term or a python int); used for lists / tuples / dict key views / range."""
 
-    def __init__(self, n, elem, label="seq", order_determined=True):
+    def __init__(self, n, elem, label="seq", order_determined=True, mutable=False):
         self.n = n
         self.elem = elem
         self.label = label
         self.order_determined = order_determined
+        self.mutable = mutable     # a python list of symbolic length built by list ops (append / += allowed)
 
     def concrete_len(self):
         if isinstance(self.n, int):
@@ -495,3 +498,36 @@ def kind_of(v):
     if isinstance(v, (str, NameK)) or v is None:
         return "name"
     return None
+
+
+def ite_value(c, a, b):
+    """If(c, a, b) for scalar values / tuples of scalars (used for symbolic-length list updates)"""
+    if isinstance(c, bool):
+        return a if c else b
+    if isinstance(a, tuple) and isinstance(b, tuple) and len(a) == len(b):
+        return tuple(ite_value(c, x, y) for x, y in zip(a, b))
+    ka, kb = kind_of(a), kind_of(b)
+    if ka is None or kb is None:
+        raise EngineLimit(f"conditional merge of {a!r} and {b!r}")
+    if ka == "name" or kb == "name":
+        return mk(z3.If(c, nameval(a), nameval(b)), "name")
+    if ka == "real" or kb == "real":
+        return mk(z3.If(c, rval(a), rval(b)), "real")
+    if ka == "bool" and kb == "bool":
+        return mk(z3.If(c, bval(a), bval(b)), "bool")
+    return mk(z3.If(c, ival(a), ival(b)), "int")
+
+
+def seq_concat(a_items, b):
+    """python list (concrete prefix a_items) + symbolic-length sequence b"""
+    na = len(a_items)
+
+    def elem(i, a_items=a_items, b=b, na=na):
+        if isinstance(i, int):
+            return a_items[i] if i < na else b.elem(i - na)
+        cur = b.elem(i - na)
+        for j in range(na - 1, -1, -1):
+            cur = ite_value(i == j, a_items[j], cur)
+        return cur
+    n = na + b.n if isinstance(b.n, int) else z3.simplify(na + b.n)
+    return SymSeq(n, elem, "list", True, mutable=True)
